@@ -116,11 +116,12 @@ func runCheck(args []string) {
 
 	// extra analyses (frame scans etc.)
 	var extraObs []*Obligation
+	currentTier, currentOut = *tier, *outRoot
 	for _, x := range ps.Extra {
 		extraObs = append(extraObs, e.runExtra(x, *prop)...)
 	}
 	if len(extraObs) > 0 {
-		results = append(results, &FuncResult{Name: "static frame analysis", Obligations: extraObs})
+		results = append(results, &FuncResult{Name: "package-level obligations (scans, bounded runs)", Obligations: extraObs})
 	}
 
 	isKnown := func(name string) *KnownFinding {
@@ -138,6 +139,7 @@ func runCheck(args []string) {
 	printedKnown := map[string]bool{}
 	var unclaimed []string
 	total, discharged := 0, 0
+	boundedRuns := 0
 	for _, r := range results {
 		if r.Unsupported != "" {
 			name := r.Name + ".translate"
@@ -155,10 +157,18 @@ func runCheck(args []string) {
 			continue
 		}
 		for _, ob := range r.Obligations {
-			total++
-			if ob.Status == "discharged" {
-				discharged++
-				continue
+			if ob.Kind == "bounded" {
+				// bounded stand-ins are reported but never counted as proved
+				boundedRuns++
+				if ob.Status == "discharged" {
+					continue
+				}
+			} else {
+				total++
+				if ob.Status == "discharged" {
+					discharged++
+					continue
+				}
 			}
 			if k := isKnown(ob.Name); k != nil {
 				if !printedKnown[k.Obligation] {
@@ -172,7 +182,7 @@ func runCheck(args []string) {
 			rp := filepath.Join(replayDir, sanitize(ob.Name)+".json")
 			rep := map[string]interface{}{"obligation": ob.Name, "kind": ob.Kind, "function": ob.Func, "clause": ob.Clause, "position": ob.Pos,
 				"status": ob.Status, "solver": ob.Solver, "solver_output": ob.Output}
-			confirmed := false
+			confirmed := ob.Confirmed
 			if ob.Status == "refuted" && ob.Model != "" {
 				rr := e.replay(ob, filepath.Join(*outRoot, "work", "replay-"+*prop))
 				rep["replay"] = rr
@@ -189,7 +199,11 @@ func runCheck(args []string) {
 		report("none", "no obligations", rp, true)
 	}
 	writeEvidence(evPath, *prop, *tier, seed, e, results, ps, time.Since(t0).Seconds(), violations, unclaimed, known)
-	fmt.Printf("property %s: %d obligations, %d discharged, %d violations, %.1fs\n", *prop, total, discharged, violations, time.Since(t0).Seconds())
+	extra := ""
+	if boundedRuns > 0 {
+		extra = fmt.Sprintf(" (+%d bounded run(s), not counted as proved)", boundedRuns)
+	}
+	fmt.Printf("property %s: %d obligations, %d discharged%s, %d violations, %.1fs\n", *prop, total, discharged, extra, violations, time.Since(t0).Seconds())
 	if violations > 0 {
 		os.Exit(1)
 	}
@@ -206,6 +220,7 @@ func writeEvidence(path, prop, tier string, seed int, e *Engine, results []*Func
 	byKind := map[string]int{}
 	var solverTime float64
 	secondCount := 0
+	var boundedObs []interface{}
 	var funcs []string
 	var samples []interface{}
 	var unknownCalls []string
@@ -228,6 +243,10 @@ func writeEvidence(path, prop, tier string, seed int, e *Engine, results []*Func
 			}
 		}
 		for i, ob := range r.Obligations {
+			if ob.Kind == "bounded" {
+				boundedObs = append(boundedObs, map[string]string{"obligation": ob.Name, "status": ob.Status, "what": ob.Clause, "seconds": fmt.Sprintf("%.1f", ob.Time)})
+				continue
+			}
 			total++
 			solverTime += ob.Time
 			byKind[ob.Kind]++
@@ -291,6 +310,7 @@ func writeEvidence(path, prop, tier string, seed int, e *Engine, results []*Func
 		"unclaimed_obligations": unclaimed,
 		"not_covered":           ps.NotCovered,
 		"bounded":               ps.Bounded,
+		"bounded_runs_not_counted_as_proved": boundedObs,
 		"integer_model":         "every Go integer is a bit-vector of its width (wrap-around, signedness, shifts modelled exactly)",
 	}
 	if len(samples) == 0 {
@@ -309,6 +329,8 @@ func writeEvidence(path, prop, tier string, seed int, e *Engine, results []*Func
 	writeJSON(path, ev)
 }
 
+var currentTier, currentOut = "quick", "/verif"
+
 // runExtra dispatches the non-SMT analyses.
 func (e *Engine) runExtra(name, prop string) []*Obligation {
 	switch name {
@@ -318,6 +340,8 @@ func (e *Engine) runExtra(name, prop string) []*Obligation {
 		return e.immutableFieldScan(prop)
 	case "grammar-values":
 		return e.grammarScan(prop)
+	case "yyparse-bounded":
+		return e.boundedParse(prop, currentTier, filepath.Join(currentOut, "work", "bounded-"+prop))
 	case "sql-determinism":
 		return e.determinismScan(prop, "/sql", []string{"errors", "fmt", "strconv", "strings", "unicode", "unicode/utf8"})
 	}
